@@ -36,7 +36,14 @@ func VerifC08() {
 	}
 	p.MaxRequestHosts = max
 	req := verifapi.NodeID(0)
-	db.SetNode(store.Node{ID: store.NodeID(req), LastSeen: now, Kind: "geth"})
+	// the requester may itself be a connected, active host of a suitable kind (hosts ask for peers too)
+	reqHost := &VerifHost{Name: "requester", Addr: "192.0.2.200:1", Behaviours: 1}
+	reqIsHost := verifapi.Param("reqhost", 1) == 1 && verifapi.Bool("requester-is-host")
+	db.SetNode(store.Node{ID: store.NodeID(req), LastSeen: now, Kind: "geth", IsHost: reqIsHost, URI: "enode://" + req + "@192.0.2.200:30303"})
+	if reqIsHost {
+		p.remoteHosts[store.NodeID(req)] = reqHost
+		p.remoteNodeLookup[reqHost] = store.NodeID(req)
+	}
 	n := verifapi.Param("hosts", 2)
 	// the requested kind: any, one of the two kinds the candidates have, or a kind the pool does not know
 	wantKind := ""
@@ -167,6 +174,7 @@ func VerifC08() {
 	for _, h := range hosts {
 		verifapi.Assert(string(h.ID) != req, "c08.never-returns-requester")
 	}
+	verifapi.Assert(len(reqHost.Calls) == 0, "c08.requester-never-asked-to-whitelist-itself")
 	if err != nil {
 		verifapi.Assert(len(hosts) == 0, "c08.error-means-no-hosts")
 		verifapi.Assert(ackedEligible == 0 || want == 0, "c08.error-only-when-no-host-could-be-provided")
